@@ -279,6 +279,10 @@ let run_case op t =
                string_of_int (code_of_kind (f (Some true))); string_of_int (code_of_kind (f None));
                str_of_z a'; str_of_z a'; str_of_z x; str_of_z y ] in
       (pr make_pair_member_m, pr make_pair_member_spec)
+  | "sbind" -> (join [ "ok"; b2s tuple_structured_binding_m ], join [ "ok"; b2s tuple_structured_binding_spec ])
+  | "getbytype" ->
+      ( join [ "ok"; b2s (get_by_type_m true); b2s (get_by_type_m false) ],
+        join [ "ok"; b2s (get_by_type_spec true); b2s (get_by_type_spec false) ] )
   | "retref" ->
       (* every wrapper returns the callable's A& result as it is: decltype(auto) / invoke_result_t of the call *)
       let which = next_int t in
